@@ -353,7 +353,15 @@ theorem evInbound_RS {w : World} (hI : WInv w) (h : RS w) {p : World × Option E
     RS p.1 := by
   unfold evInbound at hE
   split at hE
-  · cases hE; exact addConn_RS hI h _ _
+  · split at hE
+    · cases hE; exact addConn_RS hI h _ _
+    · cases hE
+      unfold addOrphan
+      refine h.of ?_ rfl rfl rfl
+      intro j ⟨c, hc, ho⟩
+      have hj : j ≠ w.n := by
+        intro e; subst e; rw [hI.bound w.n (Nat.le_refl _)] at hc; cases hc
+      exact ⟨c, by simp [World.setConn, hj, hc], ho⟩
   · cases hE
 
 theorem evConnected_RS {w : World} (hI : WInv w) (h : RS w) {k : Nat} {p : World × Option Err}
@@ -374,9 +382,11 @@ theorem step_RS {w : World} (hI : WInv w) (h : RS w) (e : Event) : RS (step w e)
     | some p => exact evInbound_RS hI h hE
   | connect =>
     simp only [step]
-    cases hE : evConnect w with
-    | none => exact h
-    | some w' => exact evConnect_RS h hE
+    split
+    · cases hE : evConnect w with
+      | none => exact h
+      | some w' => exact evConnect_RS h hE
+    · exact h
   | connected k =>
     simp only [step]
     cases hE : evConnected w k with
@@ -396,6 +406,7 @@ theorem step_RS {w : World} (hI : WInv w) (h : RS w) (e : Event) : RS (step w e)
   | advance dt =>
     simp only [step, evAdvance]
     exact foldl_RS fireTimer fireTimer_RS _ _ (h.of (fun _ x => x) rfl rfl rfl)
+  | setKey => exact h.of (fun _ x => x) rfl rfl rfl
 
 theorem RS_init (cfg : Cfg) (l : Bool) (d : Nat) (r : List Nat) : RS (initWorld cfg l d r) := by
   refine ⟨?_, by intro i h; simp [initWorld] at h, by intro i h; simp [initWorld] at h⟩
